@@ -122,21 +122,21 @@ func TestWireNames(t *testing.T) {
 				if err != nil {
 					panic(err)
 				}
-				b, _ := readN(c, 8, 2*time.Second)
+				b, _ := readN(c, 8, 6*time.Second)
 				_, _ = c.Write(goodHdr(partner))
 				ok := false
 				select {
 				case <-attached:
 					ok = true
-				case <-time.After(2 * time.Second):
+				case <-time.After(6 * time.Second):
 				}
 				c2, err := dialRaw(l.Address(), tn)
 				if err != nil {
 					panic(err)
 				}
-				_, _ = readN(c2, 8, 2*time.Second)
+				_, _ = readN(c2, 8, 6*time.Second)
 				_, _ = c2.Write(goodHdr(wrong))
-				wclosed := closedWithin(c2, 2*time.Second)
+				wclosed := closedWithin(c2, 6*time.Second)
 				extra := false
 				select {
 				case <-attached:
@@ -192,17 +192,17 @@ func TestWireNames(t *testing.T) {
 					if err != nil {
 						panic(err)
 					}
-					b, _ := readN(pc, 8, 2*time.Second)
+					b, _ := readN(pc, 8, 6*time.Second)
 					_, _ = pc.Write(goodHdr(present))
 					got, wclosed := false, false
 					if round == 0 {
 						select {
 						case <-att:
 							got = true
-						case <-time.After(2 * time.Second):
+						case <-time.After(6 * time.Second):
 						}
 					} else {
-						wclosed = closedWithin(pc, 2*time.Second) // (returns as soon as mangos hangs up)
+						wclosed = closedWithin(pc, 6*time.Second) // (returns as soon as mangos hangs up)
 						select {
 						case <-att:
 							got = true
